@@ -21,7 +21,8 @@ bool LoadScenario(const js::J& j, Scenario* s, string* err) {
   s->depth = (int)j["depth"].num(2);
   s->dev_bound = (int)j["dev_bound"].num(-1);
   for (auto& t : j["tags"].a) s->tags.insert(t.s);
-  for (auto& vj : j["variants"].a) {
+  for (const char* vkey : {"variants", "twin_variants"})
+  for (auto& vj : j[vkey].a) {
     Variant v;
     v.name = vj["name"].str();
     for (auto& kv : vj["files"].o) v.files[kv.first] = kv.second.s;
@@ -58,7 +59,7 @@ bool LoadScenario(const js::J& j, Scenario* s, string* err) {
         for (auto& o : st.spec.outs) v.producer[o] = idx;  // dyndep-provided outputs
       v.stmts.push_back(st);
     }
-    s->variants.push_back(v);
+    (string(vkey) == "variants" ? s->variants : s->twin_variants).push_back(v);
   }
   if (s->variants.empty()) { *err = "no variants"; return false; }
   for (auto& oj : j["ops"].a) {
@@ -92,6 +93,7 @@ bool LoadScenario(const js::J& j, Scenario* s, string* err) {
       for (auto& kv : oj["env"].o) op.cfg.env[kv.first] = kv.second.s;
       op.cfg.allow_interrupt = oj["interrupt"].boolean(false);
       op.crash = oj["crash"].boolean(false);
+      op.expect_error = oj["expect_error"].boolean(false);
       op.cfg.subsets = oj["subsets"].boolean(true);
       for (auto& e : oj["edits_during"].a)
         op.cfg.edits_during.push_back(make_tuple(e["when"].str(), e["path"].str(), e["content"].str()));
